@@ -1212,7 +1212,23 @@ impl<'r> Gen<'r> {
     fn gen_rec(&mut self, ty: &Ty, depth: usize, sc: &Scope) -> E {
         let id = self.n_recs;
         self.n_recs += 1;
-        let binder = if self.cfg.shadowing {
+        let binder = if self.cfg.shadowing && self.rng.chance(1, 3) {
+            // shadow something that is visible here: a declaration of the module, a parameter or an enclosing rec
+            // (uses of the same name before and after the `rec`, in the same statement, denote the outer binder)
+            let mut names: Vec<String> = self
+                .plans
+                .iter()
+                .filter(|p| p.module == sc.module && !p.name.starts_with('@'))
+                .map(|p| p.name.clone())
+                .collect();
+            names.extend(sc.params.iter().map(|(n, _, _)| n.clone()));
+            names.extend(sc.recs.iter().map(|(n, _, _)| n.clone()));
+            if names.is_empty() {
+                "x".to_owned()
+            } else {
+                self.rng.pick(&names).clone()
+            }
+        } else if self.cfg.shadowing {
             (*self.rng.pick(&["x", "node", "a", "r", "v", "item"])).to_owned()
         } else {
             format!("r{id}")
